@@ -408,6 +408,11 @@ class Sym:
         f = _to_fraction(e)
         if f is None:
             return NotImplemented
+        if isinstance(e, (float, np.floating)) and f.denominator != 1:
+            # a float exponent written as p/q in the source (1/3, 4/3, 3/2 ...): the nearest small rational is the intended real exponent
+            g = f.limit_denominator(12)
+            if abs(float(g) - float(e)) <= 4e-16 * max(1.0, abs(float(e))):
+                f = g
         if f.denominator == 1:
             k = int(f)
             if k >= 0:
